@@ -1460,9 +1460,9 @@ class C13(core.Check):
     def cases(self, rng, tier):
         for loop in self.loops():
             yield from self.small_scenarios(loop, rng, tier)
-            for _ in range(2000 if tier == "quick" else 60000):
+            for _ in range(2000 if tier == "quick" else 30000):
                 yield self.random_case(loop, rng)
-            for _ in range(1000 if tier == "quick" else 10000):
+            for _ in range(1000 if tier == "quick" else 6000):
                 yield self.many_alarms_case(loop, rng)
             if tier == "thorough":     # every registration order of 7 distinct delays, one inner removal each
                 for perm in itertools.permutations(range(1, 8)):
